@@ -327,10 +327,8 @@ class PointTier(textgrid_tier.TextgridTier):
         )
         collisionReporter = utils.getErrorReporter(collisionReportingMode)
 
-        if not isinstance(entry, Point):
-            newPoint = Point(entry[0], entry[1])
-        else:
-            newPoint = entry
+        # Labels are normalized the same way the constructor normalizes them
+        newPoint = Point(entry[0], entry[1].strip())
 
         matchList = []
         i = None
